@@ -726,7 +726,8 @@ fn c05_select(v: &Value) -> Value {
     let m = u(&v["m"]) as u32;
     let routing = NetworkFilterMask::GENERIC_HIDE | NetworkFilterMask::BAD_FILTER | NetworkFilterMask::ALSO_BLOCK_REDIRECT | NetworkFilterMask::UNMATCHED
         | NetworkFilterMask::IS_REMOVEPARAM | NetworkFilterMask::IS_REDIRECT | NetworkFilterMask::IS_CSP | NetworkFilterMask::IS_HOSTNAME_ANCHOR
-        | NetworkFilterMask::IS_REGEX | NetworkFilterMask::IS_COMPLETE_REGEX | NetworkFilterMask::IS_HOSTNAME_REGEX;
+        | NetworkFilterMask::IS_REGEX | NetworkFilterMask::IS_COMPLETE_REGEX | NetworkFilterMask::IS_HOSTNAME_REGEX
+        | NetworkFilterMask::IS_LEFT_ANCHOR | NetworkFilterMask::IS_RIGHT_ANCHOR | NetworkFilterMask::MATCH_CASE;
     let r = catch_unwind(AssertUnwindSafe(|| {
         let mut diffs = 0;
         for clear in [false, true] {
